@@ -49,7 +49,7 @@ def build_turtle(scratch, integrator="LangevinInertia", seed=1, settings_seed=No
     return eng, write_conf, read_frames, lambda fr, sign: float(fr["pos"][0, 0])
 
 
-def build_ase(scratch, integrator="velocityverlet", seed=1, subcycles=1):
+def build_ase(scratch, integrator="velocityverlet", seed=1, subcycles=1, lj_sigma=0.0):
     import tomli
     from infretis.classes.engines.factory import create_engine
     from infretis.classes.orderparameter import create_orderparameter
@@ -61,7 +61,7 @@ def build_ase(scratch, integrator="velocityverlet", seed=1, subcycles=1):
     cfg["engine"]["subcycles"] = subcycles
     cfg["engine"]["timestep"] = 1.0
     cfg["engine"]["integrator"] = integrator
-    cfg["engine"]["calculator_settings"]["sigma"] = 0.0
+    cfg["engine"]["calculator_settings"]["sigma"] = lj_sigma     # 0.0: free flight; 3.0: the example's LJ forces
     cfg["engine"]["exe_path"] = scratch
     import warnings
     warnings.filterwarnings("ignore", category=FutureWarning)
